@@ -75,7 +75,7 @@ func ruleC06Core(e *Env, rule string) {
 			for c := -1; c <= 1; c++ {
 				construct := fmt.Sprintf("Major%s Minor%s Patch%s", ordSym(a), ordSym(b), ordSym(c))
 				o := &ordOracle{ord: map[string]int{"v.Major|ver.Major": a, "v.Minor|ver.Minor": b, "v.Patch|ver.Patch": c}}
-				ev := &pred.Evaluator{Prog: e.P.SSA, Oracle: o}
+				ev := &pred.Evaluator{Prog: e.P.SSA, GlobalInit: e.globalTables(), Oracle: o}
 				out, err := ev.Eval(cmp, []pred.Val{symStruct(verT, "v"), symStruct(verT, "ver")})
 				if err != nil {
 					e.S.Unk(rule, site, construct, "not decidable by field-order abstraction: "+err.Error(), e.Pos(cmp))
@@ -169,7 +169,7 @@ func preReleaseTable(e *Env, rule string) map[string]string {
 				}
 				for _, eq := range eqs {
 					o := &ordOracle{ord: map[string]int{"len(a)|0": la0, "len(b)|0": lb0, "len(a)|len(b)": lalb, "a|b": eq, "b|a": eq}}
-					ev := &pred.Evaluator{Prog: e.P.SSA, Oracle: o, Summaries: sums}
+					ev := &pred.Evaluator{Prog: e.P.SSA, GlobalInit: e.globalTables(), Oracle: o, Summaries: sums}
 					out, err := ev.Eval(dcp, []pred.Val{pred.Sym{Name: "a"}, pred.Sym{Name: "b"}})
 					if err != nil {
 						e.S.Unk(rule, site, "lengths "+key, "not decidable by length-order abstraction: "+err.Error(), e.Pos(dcp))
